@@ -36,6 +36,20 @@ const (
 	presetBase  = 0x200 //
 )
 
+// ballastPrefill: slots the ballast contract of a long chain holds in the genesis state (far from the ones the chain
+// rewrites): generating the snapshot of this state takes about as long as executing a few blocks, as on a real chain.
+const ballastPrefill = 10000
+
+func prefillBallast(w *txgen.World, n uint64) {
+	acc := w.Accounts[ballastAddr]
+	if acc.Storage == nil {
+		acc.Storage = map[common.Hash]common.Hash{}
+	}
+	for k := uint64(0); k < n; k++ {
+		acc.Storage[slotKey(1<<40+k)] = slotKey(1<<48 + k)
+	}
+}
+
 type longEvent struct {
 	From  int
 	Churn []churnRec
@@ -48,8 +62,9 @@ type longPlan struct {
 	Heights      int
 	BallastUntil int
 	BallastN     uint64
-	Restart      map[int][]int `json:"restart_replica_before_heights"`
-	Events       int           `json:"planned_events"`
+	Restart      map[int][]int          `json:"restart_replica_before_heights"`
+	Reconfig     map[int]map[int]string `json:"reopen_replica_with_configuration,omitempty"` // replica -> height -> configuration it is reopened with (an operator changing the flags)
+	Events       int                    `json:"planned_events"`
 	events       map[int][]longEvent
 }
 
@@ -218,8 +233,22 @@ func longCase(c *core.Case) {
 	// other chain (every trie on disk at once), any of the remaining configurations in the others
 	first := []string{"default", "node-defaults", "preimages"}
 	fourth := []string{"tiny-caches", "archive-node", "dirty-disabled", "node-defaults", "noprefetch+snapshots-off+dirty-disabled", "small-dirty-cache"}
-	if c.I%2 == 0 {
+	switch c.I % 3 {
+	case 0:
 		fourth = []string{"archive-node", "dirty-disabled", "noprefetch+snapshots-off+dirty-disabled"}
+	case 1:
+		// a node that ran without the snapshot and is reopened with it while the chain is busy (and back, and again): what
+		// backend.go passes (SnapshotWait=false) makes NewBlockChain start the generator in the background and return, so the
+		// next blocks are executed while the snapshot of a state with a few thousand slots is still being generated
+		fourth = []string{"snapshots-off"}
+		cycle := []string{"node-defaults", "node-defaults", "snapshots-off", "archive-node", "node-defaults", "snapshots-off", "node-defaults", "archive-node"}
+		h := 6 + r.Intn(6)
+		plan.Restart[3], plan.Reconfig = nil, map[int]map[int]string{3: {}}
+		for k := 0; h < plan.BallastUntil && k < 8; k++ {
+			plan.Restart[3] = append(plan.Restart[3], h)
+			plan.Reconfig[3][h] = cycle[k%len(cycle)]
+			h += 1 + r.Intn(4)
+		}
 	}
 	o.Replicas = []repCfg{cfgByName(first[r.Intn(len(first))]), cfgByName("snapshots-off+small-dirty-cache"), cfgByName("default"), cfgByName(fourth[r.Intn(len(fourth))])}
 	if runScenario(c, r, o, "long") != nil {
